@@ -75,17 +75,25 @@ structure Membership where
   rows : List (List Nat)
 deriving Repr, DecidableEq
 
+/-- number of columns of `get_membership(labels, n_labels)`: `n_labels`, or `max(labels) + 1`
+    (`max([])` is a ValueError) -/
+def membershipCols (labels : List Int) (nLabels : Option Nat) : Except PyErr Int :=
+  match nLabels with
+  | some k => .ok (k : Int)
+  | none =>
+    match labels.max? with
+    | none => .error .valueError
+    | some m => .ok (m + 1)
+
 /-- `get_membership(labels, n_labels=…)`; negative labels give an empty row;
-    `max([])` and a column index outside the shape are ValueErrors -/
-def getMembership (labels : List Int) (nLabels : Option Nat) : Except PyErr Membership := do
-  let nCol : Int ← match nLabels with
-    | some k => pure (k : Int)
-    | none => match labels.max? with
-      | none => throw .valueError
-      | some m => pure (m + 1)
-  if nCol < 0 then throw .valueError
-  if labels.any (fun l => decide (nCol ≤ l)) then throw .valueError
-  pure ⟨nCol.toNat, labels.map fun l => if 0 ≤ l then [l.toNat] else []⟩
+    `max([])`, a negative shape and a column index outside the shape are ValueErrors -/
+def getMembership (labels : List Int) (nLabels : Option Nat) : Except PyErr Membership :=
+  match membershipCols labels nLabels with
+  | .error e => .error e
+  | .ok nCol =>
+    if nCol < 0 then .error .valueError
+    else if labels.any (fun l => decide (nCol ≤ l)) then .error .valueError
+    else .ok ⟨nCol.toNat, labels.map fun l => if 0 ≤ l then [l.toNat] else []⟩
 
 /-- `sparse.identity(n, format='csr')` -/
 def identity (n : Nat) : Membership := ⟨n, tab n fun i => [i]⟩
@@ -341,6 +349,49 @@ def secondary (a : SpMat) (nCol : Nat) (f : Fitted) (bipartite returnProbs retur
     match f.labelsRow, f.labelsCol with
     | some lr, some lc => secondaryBip a nCol lr lc returnProbs returnAggregate
     | _, _ => .error .typeError
+
+/-! ### `postprocess.aggregate_graph` -/
+
+/-- integer labels as column indices of their membership matrix; a negative label (ignored by
+    `get_membership`) is sent to the out-of-range index `k` -/
+def natLabels (l : List Int) (k : Nat) : List Nat := l.map fun x => if 0 ≤ x then x.toNat else k
+
+/-- `labels_row` is an alias of `labels` (it wins when both are given) -/
+def rowLabelsArg (labels labelsRow : Option (List Int)) : Option (List Int) :=
+  match labelsRow with
+  | some l => some l
+  | none => labels
+
+/-- the labels of the columns: `labels_col`, or the row labels -/
+def colLabelsArg (labelsCol : Option (List Int)) (lr : List Int) : List Int :=
+  match labelsCol with
+  | some l => l
+  | none => lr
+
+/-- `membership_col = get_membership(labels_col)` if given, else `membership_row` -/
+def colMembership (labelsCol : Option (List Int)) (mr : Membership) : Except PyErr Membership :=
+  match labelsCol with
+  | some l => getMembership l none
+  | none => .ok mr
+
+/-- `aggregate_graph(input_matrix, labels, labels_row, labels_col)`:
+    `membership_row.T.dot(input_matrix).dot(membership_col)`, dense, with its shape.  Negative labels are ignored;
+    `get_membership(None)` is a TypeError, a shape mismatch in a product a ValueError. -/
+def aggregateGraph (a : SpMat) (nCol : Nat) (labels labelsRow labelsCol : Option (List Int)) :
+    Except PyErr (Nat × Nat × List (List Rat)) :=
+  match rowLabelsArg labels labelsRow with
+  | none => .error .typeError
+  | some lr =>
+    match getMembership lr none with
+    | .error e => .error e
+    | .ok mr =>
+      match colMembership labelsCol mr with
+      | .error e => .error e
+      | .ok mc =>
+        if mr.rows.length != a.length || mc.rows.length != nCol then .error .valueError
+        else .ok (mr.nCol, mc.nCol,
+          memberTDot (natLabels lr mr.nCol) mr.nCol
+            (dotMember a (natLabels (colLabelsArg labelsCol lr) mc.nCol) mc.nCol) mc.nCol)
 
 /-! ### `KCenters`: everything around PageRank -/
 
